@@ -327,6 +327,29 @@ def s2_specs(ctx: Ctx) -> list[dict]:
     return specs
 
 
+def s3_specs(ctx: Ctx) -> list[dict]:
+    """Long sequences (one ulp of a time near the end exceeds 1e-12 ns above 8192 ns) whose evaluation times coincide
+    with multiples of dt mathematically but not bit for bit: dt = D/n, times k/n written in several float forms."""
+    import numpy as np
+
+    rng = ctx.rng
+    if ctx.quick:
+        durs = [8200, 8800, 9600, 10000, 12000, 16000, 20000] + [rng.randrange(8193, 20001) for _ in range(8)]
+    else:
+        durs = list(range(8200, 20001, 50)) + [rng.randrange(8193, 20001) for _ in range(200)]
+    specs = []
+    for j, D in enumerate(durs):
+        for n in (7, 10, 13, 16) if not ctx.quick else (10, (7, 13, 16)[j % 3]):
+            for form in ("div", "linspace", "arange", "mulinv"):
+                ev = [eval_float(form, q, n) for q in range(n + 1)]
+                how = (j + n) % 3
+                obs, dflt = ([ev], None) if how == 0 else ([None], ev) if how == 1 else ([ev[::2], ev[1::2]], None)
+                for dt in (D / n, float(D // n) if D % n == 0 else D / (2 * n)):
+                    specs.append({"stratum": "S3", "kind": form, "D": D, "mod": False, "dt": float(dt), "obs": obs, "default": dflt,
+                                  "route": "pulserdata" if (ctx.quick and D == 16000 and n == 10 and form == "linspace") else "fn"})
+    return specs
+
+
 # ------------------------------------------------------------------------------------------------
 def tlc_data(ctx: Ctx, cases: list[dict], name: str) -> dict[int, set]:
     """Hand recorded cases to TLC (TimeGridData.tla); returns {id: set of failing clauses}."""
@@ -438,7 +461,7 @@ def run(ctx: Ctx) -> None:
     ctx.log(f"TLC merged/float: {r_m['distinct']} states, violated={r_m['violated']}")
 
     # ---------------------------------------------------------------- (2) binding C: real lists
-    specs = s1_specs(ctx, scenarios) + s2_specs(ctx)
+    specs = s1_specs(ctx, scenarios) + s2_specs(ctx) + s3_specs(ctx)
     for i, s in enumerate(specs):
         s["id"] = i + 1
     ctx.log(f"{len(specs)} grid cases")
